@@ -1,7 +1,8 @@
 import GlmVerif.Spec.C02
-import GlmVerif.Gen.C02
-/-! table check of family `row_set` against the model generated from /repo (kernel evaluation) -/
+import GlmVerif.Gen.C02.row_set
+/-! table check of family `row_set` against the model of its units generated from /repo (kernel evaluation) -/
 namespace Glm.Props.C02
 open Glm Glm.Spec.C02 Glm.Gen.C02
-theorem row_set_ok : f_row_set.ok lookup = true := by decide +kernel
+set_option maxHeartbeats 4000000 in
+theorem row_set_ok : f_row_set.ok (fun _ ks => row_set_L ks) = true := by decide +kernel
 end Glm.Props.C02
